@@ -12,7 +12,7 @@ EXPLANATION = """
 (1) The signal handler is installed, with its result checked, on every path before any thread is spawned; ctrlc is built with the `termination` feature
 (Cargo.toml), so SIGTERM is covered as well as SIGINT.  (2) Every path through the handler stores `false` into KEEP_RUNNING and the handler reaches no lock, wait, sleep, socket, process exit or
 panic site (ctrlc runs it on its own thread, so logging there is allowed; every delivery instant is equivalent); each worker loads the same static after every process_events call and leaves its loop on false; the reporter loads it as its loop
-condition (the parameter is bound to KEEP_RUNNING at the only call site).  (3) process_events returns when idle: the poll timeout is Some(constant <= 1 s).
+condition (the parameter is bound to KEEP_RUNNING at the only call site).  (2c) After the flag was seen false nothing that can panic runs before the worker / reporter thread ends (exit status 0, not 101).  (3) process_events returns when idle: the poll timeout is Some(constant <= 1 s).
 (4) One reporter iteration is bounded by a constant sleep.  (5) After all joins main calls process::exit(0), and no other exit status is reachable after the spawn loop.
 (6) Every loop reachable from a thread entry is classified from the CFG and the provenance of its exit conditions: iteration over a finite collection/range,
 computation over in-memory values, or dependent on a socket / queue / random source; loops of the last kind must load the flag in every iteration (or carry an
@@ -275,6 +275,57 @@ def run(ctx):
                             okl = tgt not in lp["body"] or not fn.reaches(tgt, lp["header"]) and tgt != lp["header"]
                 ctx.check("flag-false-leaves-loop", "%s" % fp, okl, "when the flag reads false the loop is left", "the loop in %s continues although the shutdown flag reads false" % fp, fn.loc(lb))
     ctx.floor("flag-false-leaves-loop", nload, 2, "flag loads inside loops")
+
+    # ------------------------------------------------------------------ (2c) after the flag was seen false the thread ends without panicking
+    # "stops cleanly" = exit status 0: a panic on the way out of the worker loop or the reporter loop (a final flush, a farewell log line that
+    # subtracts durations) makes main's join().expect(..) fail and the process exit with status 101
+    from nopanic import NoPanic
+    import audit_facts
+    npost = 0
+    for fp in sorted(reach):
+        fn = P.fns[fp]
+        ev = W.ev(fp)
+        fl = flag_terms(W, fn, ev, bound.get(fp, set()))
+        if not fl:
+            continue
+        floops = [lp for lp in fn.loops() if any(lb in lp["body"] for (lb, lt) in fl)]
+        if not floops:
+            continue
+        lp = max(floops, key=lambda l: len(l["body"]))
+        post = set()
+        stack = [d for (s0, d) in lp["exits"] if d not in fn.diverging()]
+        while stack:
+            n = stack.pop()
+            if n in post or n in lp["body"]:
+                continue
+            post.add(n)
+            stack.extend(fn.succ(n))
+        npost += 1
+        bad = []
+        callees = set()
+        for n in sorted(post):
+            t = fn.blocks[n].term
+            if t["k"] == "assert":
+                bad.append((n, "%s check" % t.get("akind")))
+            if t["k"] == "call":
+                nm = callee_name(t["fn"].get("path", ""))
+                pth = t["fn"].get("path", "")
+                if nm in ("unwrap", "expect", "panic_fmt", "panic", "unwrap_failed", "expect_failed") or "panicking" in pth:
+                    bad.append((n, nm))
+                for tg in P.call_targets(t):
+                    if tg in P.fns and not P.fns[tg].derived:
+                        callees.add(tg)
+        if callees:
+            sub = type(ctx)("C19", P, ctx.repo, "quick", ctx.feature)
+            chk2 = audit_facts.Checker(sub, W)
+            eng = NoPanic(sub, W, sorted(callees), requirement_checker=chk2.check)
+            for r in eng.run():
+                if r["status"] == "open":
+                    bad.append((None, "%s in %s (%s) at %s" % (r["kind"], r["fn"].split("::")[-1], r["detail"][:80], r["loc"])))
+        ctx.check("clean-exit", "%s/no-panic-after-the-loop" % fp.split("::")[-1], not bad, "nothing that can panic runs between leaving the loop and the end of the thread",
+                  "after the shutdown flag was seen, %s can still panic (%s): the thread dies, main's join fails and the process exits with status 101 instead of 0"
+                  % (fp.split("::")[-1], "; ".join(b[1] for b in bad[:3])), fn.loc(bad[0][0]) if bad and bad[0][0] is not None else ctx.loc(fn))
+    ctx.floor("clean-exit", npost, 2, "thread loops whose exit path was examined (worker, reporter)")
     ctx.extra["loops_classified"] = kinds
     ctx.floor("flag-in-loop", nloops, 12, "loops reachable from the thread entries")
     ctx.floor("flag-in-loop-flagged", kinds.get("flag", 0), 2, "loops that read the shutdown flag (worker loop, reporter loop)")
